@@ -13,7 +13,7 @@ package sched
 import (
 	"fmt"
 	"runtime"
-	"sort"
+	"strconv"
 	"strings"
 	"sync"
 	"sync/atomic"
@@ -64,9 +64,7 @@ type thread struct {
 // Sched controls one execution.
 type Sched struct {
 	mu       sync.Mutex
-	threads  []*thread
-	byGoid   map[int64]*thread
-	autoSeq  map[string]int
+	threads  []*thread // preallocated; scanned linearly (no maps: the runtime instruments map accesses for the race detector even in norace code)
 	ctrlGoid int64
 	running  *thread
 	phase    int32 // 0 setup, 1 running, 2 finished
@@ -126,10 +124,14 @@ func Current() *Sched {
 // Active returns the scheduler of the running execution (any phase), or nil.
 func Active() *Sched { return active.Load() }
 
+//go:norace
 func newSched(prefix []int) *Sched {
 	return &Sched{
-		byGoid:   map[int64]*thread{},
-		autoSeq:  map[string]int{},
+		threads:  make([]*thread, 0, 128),
+		Trace:    make([]Decision, 0, 8192),
+		Steps:    make([]string, 0, 8192),
+		fails:    make([]Failure, 0, 64),
+		notes:    make([]string, 0, 64),
 		ctrlGoid: goid(),
 		prefix:   prefix,
 		MaxSteps: 20000,
@@ -139,50 +141,73 @@ func newSched(prefix []int) *Sched {
 }
 
 // Go starts an explicit harness thread. It parks before running fn.
+//
+//go:norace
 func (s *Sched) Go(key string, fn func()) {
 	s.mu.Lock()
 	t := &thread{id: len(s.threads), key: key, explicit: true, wake: make(chan struct{})}
 	s.threads = append(s.threads, t)
 	s.mu.Unlock()
-	go func() {
-		RaceOff()
-		g := goid()
-		s.mu.Lock()
-		t.goid = g
-		s.byGoid[g] = t
-		t.req = Req{Kind: KStart, Label: "start"}
-		t.parked = true
-		s.mu.Unlock()
-		<-t.wake
-		RaceOn()
-		defer func() {
-			RaceOff()
-			s.mu.Lock()
-			t.done = true
-			delete(s.byGoid, g)
-			s.mu.Unlock()
-			RaceOn()
-		}()
-		fn()
-	}()
+	go s.threadMain(t, fn)
+}
+
+//go:norace
+func (s *Sched) threadMain(t *thread, fn func()) {
+	RaceOff()
+	g := goid()
+	s.mu.Lock()
+	t.goid = g
+	t.req = Req{Kind: KStart, Label: "start"}
+	t.parked = true
+	s.mu.Unlock()
+	<-t.wake
+	RaceOn()
+	defer s.threadDone(t)
+	fn()
+}
+
+//go:norace
+func (s *Sched) threadDone(t *thread) {
+	RaceOff()
+	s.mu.Lock()
+	t.done = true
+	t.goid = -1
+	s.mu.Unlock()
+	RaceOn()
+}
+
+//go:norace
+func (s *Sched) byGoid(g int64) *thread {
+	for _, t := range s.threads {
+		if t.goid == g && !t.done {
+			return t
+		}
+	}
+	return nil
 }
 
 // Point parks the calling goroutine until the controller grants req.
+//
+//go:norace
 func (s *Sched) Point(req Req) {
 	RaceOff()
 	defer RaceOn()
 	g := goid()
 	s.mu.Lock()
-	t := s.byGoid[g]
+	t := s.byGoid(g)
 	if t == nil {
 		// goroutine spawned by the code under test: auto-register under a
 		// key derived from its first point, so identity is replay-stable.
-		base := "auto:" + req.Label
-		n := s.autoSeq[base]
-		s.autoSeq[base] = n + 1
-		t = &thread{id: len(s.threads), key: fmt.Sprintf("%s#%d", base, n), goid: g, wake: make(chan struct{})}
+		base := "auto:" + req.Label + "#"
+		n := 0
+		for _, o := range s.threads {
+			if strings.HasPrefix(o.key, base) {
+				n++
+			}
+		}
+		// (no fmt here: fmt's sync.Pool must not be used while the detector ignores sync)
+		t = &thread{id: len(s.threads), key: base + strconv.Itoa(n), goid: g, wake: make(chan struct{})}
 		s.threads = append(s.threads, t)
-		s.byGoid[g] = t
 	}
 	t.req = req
 	t.parked = true
@@ -202,6 +227,8 @@ func Env(label string) {
 func Choose(n int, label string) int { return ChooseCost(n, 1, label) }
 
 // ChooseCost is Choose with an explicit deviation cost for non-default answers.
+//
+//go:norace
 func ChooseCost(n, cost int, label string) int {
 	s := active.Load()
 	if s == nil || n <= 1 {
@@ -214,6 +241,7 @@ func ChooseCost(n, cost int, label string) int {
 	return s.decide(n, true, cost, label)
 }
 
+//go:norace
 func (s *Sched) decide(n int, env bool, altCost int, label string) int {
 	i := len(s.Trace)
 	c := 0
@@ -231,23 +259,30 @@ func (s *Sched) decide(n int, env bool, altCost int, label string) int {
 }
 
 // Fail records a property violation for this execution.
+//
+//go:norace
 func (s *Sched) Fail(key, format string, a ...any) {
+	msg := fmt.Sprintf(format, a...)
 	RaceOff()
 	defer RaceOn()
 	s.mu.Lock()
-	s.fails = append(s.fails, Failure{Key: key, Detail: fmt.Sprintf(format, a...)})
+	s.fails = append(s.fails, Failure{Key: key, Detail: msg})
 	s.mu.Unlock()
 }
 
 // Note attaches an observation to the execution (part of its outcome signature).
+//
+//go:norace
 func (s *Sched) Note(format string, a ...any) {
+	msg := fmt.Sprintf(format, a...)
 	RaceOff()
 	defer RaceOn()
 	s.mu.Lock()
-	s.notes = append(s.notes, fmt.Sprintf(format, a...))
+	s.notes = append(s.notes, msg)
 	s.mu.Unlock()
 }
 
+//go:norace
 func (s *Sched) enabledLocked() []*thread {
 	var en []*thread
 	for _, t := range s.threads {
@@ -258,15 +293,24 @@ func (s *Sched) enabledLocked() []*thread {
 			en = append(en, t)
 		}
 	}
-	sort.SliceStable(en, func(i, j int) bool {
-		if (en[i] == s.running) != (en[j] == s.running) {
-			return en[i] == s.running
+	// canonical order: the running thread first, then by key (insertion sort, no closures)
+	for i := 1; i < len(en); i++ {
+		for j := i; j > 0 && s.threadLess(en[j], en[j-1]); j-- {
+			en[j], en[j-1] = en[j-1], en[j]
 		}
-		return en[i].key < en[j].key
-	})
+	}
 	return en
 }
 
+//go:norace
+func (s *Sched) threadLess(a, b *thread) bool {
+	if (a == s.running) != (b == s.running) {
+		return a == s.running
+	}
+	return a.key < b.key
+}
+
+//go:norace
 func (s *Sched) allDoneLocked() bool {
 	for _, t := range s.threads {
 		if t.explicit && !t.done {
@@ -281,6 +325,8 @@ func (s *Sched) allDoneLocked() bool {
 
 // Run is the controller loop. It returns when every explicit thread has finished
 // and no thread is parked, or on deadlock (s.Deadlock) or divergence.
+//
+//go:norace
 func (s *Sched) Run() {
 	// let goroutines started during set-up (watchers, monitors) run, unscheduled, until
 	// they block, so that which of them become threads does not depend on timing
@@ -352,6 +398,8 @@ func (s *Sched) Run() {
 }
 
 // Blocked describes parked threads (for deadlock reports).
+//
+//go:norace
 func (s *Sched) Blocked() string {
 	s.mu.Lock()
 	defer s.mu.Unlock()
